@@ -209,6 +209,46 @@ def rule_attr_type(ctx, classes=SKETCH_CLASSES, only=None, narrowing=True, metho
                            % (sibling_narrow[0][1], sibling_narrow[0][2], sibling_narrow[0][0], sa, aty))
 
 
+def rule_call_range(ctx, only=None, rule="call-width"):
+    """Kernel -> kernel calls (outside the hash module, whose helpers truncate on purpose): every integer argument provably lies in
+    the range of the callee's declared parameter type -- Numba casts to the declared type without a range check."""
+    F = facts_of(ctx)
+    for k in F.model.kernels():
+        if k.module.short == "hashes" or F.is_inlined_helper(k) or (only is not None and k.key not in only):
+            continue
+        w = walk_kernel(F, k)
+        evs = [e for e in w.events if e.kind == "call" and e.callee is not None and e.callee.is_kernel and not getattr(e, "inlined", False)
+               and e.callee.module.short != "hashes"]
+        for g in group_by_node(evs):
+            e0 = g[0]
+            for i, p in enumerate(e0.callee.params):
+                pty = e0.callee.ptypes.get(p)
+                if pty is None or pty.is_array or pty.kind not in ("uint", "int") or pty.bits >= 64:
+                    continue        # a 64-bit parameter holds every intermediate Numba computes
+                res = []
+                for e in g:
+                    a = e.args[i] if i < len(e.args) else None
+                    if not isinstance(a, Num):
+                        res.append((None, "argument not understood"))
+                        continue
+                    if is_float_derived(w, a.lin):
+                        note = "%s: `%s(%s=...)` -- argument derives from floating-point log/exp; range not decided (numeric)" % (k.key, e.callee.name, p)
+                        if note not in ctx.undecided_clauses:
+                            ctx.undecided_clauses.append(note)
+                        continue
+                    lo, hi = pty.range()
+                    p1 = w.P.prove_le0(a.lin - hi, e.facts)
+                    p2 = w.P.prove_le0(Lin.const(lo) - a.lin, e.facts)
+                    res.append((bool(p1 and p2), "%d <= %s <= %d" % (lo, show_lin(a.lin), hi) if p1 and p2 else
+                                "cannot prove %d <= %s <= %d: %s's `%s: %r` truncates it" % (lo, show_lin(a.lin), hi, e.callee.name, p, pty), fact_strs(e)))
+                if all(r[0] is True for r in res):
+                    # keep the evidence small: one aggregated obligation per call site
+                    continue
+                agg(ctx, rule, k, e0.node, "%s(%s=...)" % (e0.callee.name, p), "an argument handed to a typed kernel parameter fits that type", res)
+            agg(ctx, rule, k, e0.node, "%s(...) from %s" % (e0.callee.name, k.name), "every integer argument of the call fits the callee's parameter types",
+                [(True, "all in range", [])])
+
+
 def rule_call_width(ctx, kernels):
     """Kernel -> kernel calls: a typed scalar parameter forwarded to a callee is not narrowed by the callee's signature."""
     F = facts_of(ctx)
@@ -887,6 +927,7 @@ def rule_cons(ctx, kernels=None):
         depth_p = F.param_for(k, "depth")
         stores = [e for e in w.events if e.kind == "store" and e.arr.name == table]
         sites = group_by_node(stores)
+        no_early_exit(ctx, "cons", k, w, {table}, "rows of the key")
         ctx.ob("cons", k, k.node, "%d table store site(s) in %s" % (len(sites), k.name),
                "exactly one statement writes the counter table", len(sites) == 1,
                "" if len(sites) == 1 else "sites: %s" % [src(k, g[0].node, 50) for g in sites])
@@ -1189,6 +1230,23 @@ def merge_kernels(F, classes=SKETCH_CLASSES):
     return out
 
 
+def no_early_exit(ctx, rule, k, w, tabs, what):
+    """Nothing leaves a loop that updates one of `tabs` before its range is exhausted: no `break`, no `return` inside it."""
+    nodes = {}
+    for e in w.events:
+        if e.kind in ("store", "slicestore") and e.arr.name in tabs:
+            for lp in e.loops:
+                nodes[id(lp.node)] = lp.node
+    if not nodes:
+        return
+    bad = [e for e in w.events if (e.kind == "loopbreak" and id(e.loop.node) in nodes)
+           or (e.kind == "ret" and any(id(lp.node) in nodes for lp in e.loops))]
+    res = [(False, "`%s` leaves the loop before every %s was visited" % (unparse(e.node, 40) if e.kind == "ret" else "break", what), fact_strs(e)) for e in bad]
+    first = next(iter(nodes.values()))
+    agg(ctx, rule, k, bad[0].node if bad else first, "%s: update loop runs to completion" % k.name,
+        "the loop over the %s is never left early (no break / return inside it)" % what, res or [(True, "no early exit", [])])
+
+
 def rule_cover(ctx, kernels, rule="cover"):
     """The loop nest addresses the whole table; prange bodies write only their own row."""
     F = facts_of(ctx)
@@ -1196,6 +1254,7 @@ def rule_cover(ctx, kernels, rule="cover"):
         w = walk_kernel(F, k)
         pa = F.param_attr().get(k.key, {})
         tabs = {p for p, s in pa.items() if s & {"cms", "lhh", "lhh_count", "key_lens", "registers"}}
+        no_early_exit(ctx, rule, k, w, tabs, "cells")
         stores = [e for e in w.events if e.kind in ("store", "slicestore") and e.arr.name in tabs]
         for g in group_by_node(stores):
             res = []
